@@ -6,7 +6,7 @@
 (* de Casteljau's repeated linear interpolation in scaled integers, and    *)
 (* arc-length positions on axis-parallel polylines.                        *)
 (***************************************************************************)
-EXTENDS Integers, Sequences, FiniteSets
+EXTENDS Integers, Sequences, FiniteSets, TLC
 
 Abs(x) == IF x < 0 THEN -x ELSE x
 Min2(a, b) == IF a < b THEN a ELSE b
@@ -87,7 +87,8 @@ NextRow(row, k, D) == [i \in 1..(Len(row) - 1) |->
                           <<row[i][1] * (D - k) + row[i + 1][1] * k, row[i][2] * (D - k) + row[i + 1][2] * k>>]
 RECURSIVE CastRows(_, _, _, _)
 CastRows(row, k, D, acc) == IF Len(row) = 1 THEN Append(acc, row)
-                            ELSE CastRows(NextRow(row, k, D), k, D, Append(acc, row))
+                            ELSE LET nr == TLCEval(NextRow(row, k, D))       \* evaluate each row once (TLC is lazy)
+                                 IN CastRows(nr, k, D, Append(acc, row))
 \* Casteljau(P, k, D)[j] for j = 0..n
 Casteljau(P, k, D) == LET rows == CastRows(P, k, D, <<>>) IN [j \in 0..(Len(P) - 1) |-> rows[j + 1]]
 ScalePt(p, c) == <<p[1] * c, p[2] * c>>
